@@ -50,6 +50,8 @@ def _cases(tier):
             items.append((g, "wy"))
         for g in enum_O(4, max_edges=5):
             items.append((g, (0,)))  # no source domain: lines 8-10 on four-node graphs
+        for g in enum_O(4, max_edges=5):
+            items.append((g, "wy2"))  # two source domains, each experimenting on one of the target interventions
     else:
         for n in (2, 3):
             for g in enum_L(n):
@@ -64,7 +66,7 @@ def shards(tier):
     items = _cases(tier)
     order = sorted(
         range(len(items)),
-        key=lambda i: (-(1 if items[i][1] == "wy" else max(items[i][1])), -len(items[i][0].nodes), i),
+        key=lambda i: (-(1 if isinstance(items[i][1], str) else max(items[i][1])), -len(items[i][0].nodes), i),
     )
     return [(i, i + 1) for i in order]
 
@@ -74,7 +76,8 @@ def describe(tier):
         "bound": (
             "O(2), O(3) name-ordered ADMGs with K<=1 source domains (all 19 (Z,W) specs per domain at n=3); "
             "O(3, <=3 edges) with K=2 (all ordered pairs of specs); O(4, <=4 edges) with one source domain whose surrogate "
-            "outcomes are the target outcomes and whose experiment is a single node; O(4, <=5 edges) with no source domain"
+            "outcomes are the target outcomes and whose experiment is a single node; O(4, <=5 edges) with no source domain and with two source domains that each "
+            "experiment on one of the target interventions and observe the target outcomes"
             if tier == "quick"
             else "L(2), L(3) all labelled ADMGs with K<=2 (all ordered pairs of domain specs); O(4, <=4 edges) with K<=1"
         )
@@ -220,6 +223,8 @@ def explore_graph(res: Res, g: G, ks, tier, seed, only=None):
     for x, y in disjoint_pairs(g.nodes):
         if ks == "wy":
             groups = [[((z,), y)] for z in g.nodes if z not in y]
+        elif ks == "wy2":
+            groups = [[((z1,), y), ((z2,), y)] for z1, z2 in itt.permutations(x, 2)]
         else:
             groups = [doms for k in ks for doms in itt.product(specs, repeat=k)]
         for doms in groups:
